@@ -149,7 +149,7 @@ pub fn record_program(tw: &mut TraceWriter, rng: &mut Rng, subject: &str, big: b
 	// stream, or the subject's own previous output (prices that sit exactly on an average: ties inside cascaded stages)
 	let mut shadows: Vec<Box<dyn DynM>> = Vec::new();
 	if kind == 's' && e == 0 && subject != "Conv" && !cfg!(feature = "value_type_f32") {
-		for sh in ["EMA", "SMA"] {
+		for sh in ["EMA", "SMA", "DMA"] {
 			if let Ok(Ok(m)) = build(sh, &json!([n0.clamp(1, 200)]), &init) {
 				shadows.push(m);
 			}
@@ -186,6 +186,12 @@ pub fn record_program(tw: &mut TraceWriter, rng: &mut Rng, subject: &str, big: b
 			if let Ok(Out::F(v)) = catch(|| m.next(&x)) {
 				echo.push(v);
 			}
+		}
+		// the input that makes the first EMA stage land exactly on the second one (e1 + (e2 - e1) / alpha): ties BETWEEN the
+		// stages of the cascaded averages (DMA, TMA, DEMA, TEMA)
+		if echo.len() == 3 {
+			let (e1, e2) = (echo[0], echo[2]);
+			echo.push(e1 + (e2 - e1) * (n0 as f64 + 1.0) / 2.0);
 		}
 		let xs = scale_in(&x, e);
 		let y = catch(|| m.next(&xs));
